@@ -647,6 +647,9 @@ func (m *MockABI) Revert(req *labi.RevertRequest) (*labi.RevertResponse, error) 
 		case len(m.roots) < 2:
 			err = fmt.Errorf("mockabi: nothing to revert")
 			m.Inconsistencies = append(m.Inconsistencies, "Revert with nothing to revert")
+		case m.lenientRevert(): // lenient.go
+			m.roots = m.roots[:len(m.roots)-1]
+			root = m.roots[len(m.roots)-1].Root
 		case !bytes.Equal(m.roots[len(m.roots)-1].Root, req.StateRoot) || m.roots[len(m.roots)-1].Height != ctx.header.Height:
 			m.Inconsistencies = append(m.Inconsistencies, fmt.Sprintf("Revert of height %d root %x but application is at height %d root %x", ctx.header.Height, []byte(req.StateRoot), m.roots[len(m.roots)-1].Height, m.roots[len(m.roots)-1].Root))
 			err = fmt.Errorf("%w: revert of a block that is not the application tip", ErrStateRootMismatch)
